@@ -280,6 +280,11 @@ func TestC39(t *testing.T) {
 						return
 					}
 				}
+				for _, k2 := range [][]byte{pk0[:31], append(append([]byte(nil), pk0...), 0), {}} {
+					if !neg("accept:wrong-size-key", fmt.Sprintf("verified under a %d-byte public key", len(k2)), k2, tp, msg, sig) {
+						return
+					}
+				}
 				var keyBits []int
 				if depth <= 3 {
 					for b := 0; b < 256; b++ {
